@@ -296,6 +296,9 @@ def step (mode : String) (d : DS) (toks : List String) (impl : String) : DS × R
   | some "accupd" =>
     -- `Accumulator.Update` accepts exactly the pre-merge block numbers
     (d, { model := if kvNat toks "num" < mergeBlock then "ok" else "err", tags := ["accupd"], nontrivial := false })
+  | some "embeddedagain" =>
+    -- the embedded tables, loaded again: the same for every validator of the process
+    (d, { model := "same=1", monitor := if impl == "same=1" then [] else ["out_of_range_positions_rejected_by_every_validator"], tags := ["embeddedagain"] })
   | some "prove" =>
     let c := kvNat toks "chain"
     let e := kvNat toks "ep"
